@@ -1473,7 +1473,7 @@ func c10Extra(c *harness.Ctx) {
 // hugeNonceOps: every NFT operation on nonces around the 8-, 32-, 63- and 64-bit boundaries
 // (counters seeded directly, storage and shadow alike).
 func hugeNonceOps(c *harness.Ctx, enabled []string) {
-	for k, ctr := range []uint64{254, 65534, 1<<32 - 2, 1<<63 - 2, 1<<63 + 4, ^uint64(0) - 3} {
+	for k, ctr := range []uint64{254, 65534, 1<<32 - 2, 1<<63 - 2, 1<<63 + 4, ^uint64(0) - 5} {
 		if !mine(c, k) {
 			continue
 		}
